@@ -158,6 +158,36 @@ def clause_lines(lines, key, kind, meta, indent="        "):
     return out
 
 
+
+LOCAL_RX = re.compile(r"\blet\s+(?:mut\s+)?([a-z_][a-z0-9_]*)\b|\bfor\s+([a-z_][a-z0-9_]*)\s+in\b|\b(?:Some|Ok|Err)\(\s*(?:mut\s+)?([a-z_][a-z0-9_]*)\s*\)\s*=[^=]")
+
+
+def extract_locals(body_text):
+    """names bound by `let`, `for .. in`, `if/while let Some(x) =` in textual order (first binding only)."""
+    out = []
+    for m in LOCAL_RX.finditer(body_text):
+        n = m.group(1) or m.group(2) or m.group(3)
+        if n and n != "_" and n not in out:
+            out.append(n)
+    return out
+
+
+def rename_overlay_locals(ent, mp):
+    """rule R22: the function's local variables were renamed (same number of bindings in the same order as on the pinned
+    tree); the overlay text of this function (invariants, hints, anchors) is alpha-renamed accordingly."""
+    import copy as _copy
+    # identifiers only: not path segments (`a::x`, `x::b`), not fields / methods (`.x`)
+    rx = re.compile(r"(?<![:.\w])(%s)(?![\w]|\s*::)" % "|".join(re.escape(k) for k in sorted(mp, key=len, reverse=True)))
+    def f(t):
+        return rx.sub(lambda m: mp[m.group(1)], t)
+    e = _copy.copy(ent)
+    e.loops = {n: {"iter": (mp.get(v["iter"], v["iter"]) if v.get("iter") else v.get("iter")), "lines": [f(x) for x in v["lines"]]} for n, v in ent.loops.items()}
+    e.prefix = [f(x) for x in ent.prefix]
+    e.inserts = [(where, k, f(rx_), [f(y) for y in lines]) for (where, k, rx_, lines) in ent.inserts]
+    e.rewrites = [(f(a), f(b)) for a, b in ent.rewrites]
+    e.closures = {n: ([f(y) for y in v] if isinstance(v, list) else f(v)) for n, v in ent.closures.items()}
+    return e
+
 def weave_fn(it, ctx, meta, modpath, in_trait_decl=False):
     """weaves the overlay into one function; when an anchor of the overlay is lost (the function's shape changed), the
     function is emitted as #[verifier::external_body] with its contract only and reported in meta["lost_fns"]:
@@ -195,6 +225,17 @@ def _weave_fn(it, ctx, meta, modpath, in_trait_decl=False, degrade=False):
         ent.attrs = [a for a in ent.attrs if "external" not in a and "spinoff" not in a and "rlimit" not in a] + ["#[verifier::external_body]"]
         ent.raw = True
     has_body = it.body is not None
+    # record / compare the local bindings of the function (inventory of the pinned tree)
+    if has_body:
+        cur_locals = extract_locals(text_of(it.body))
+        meta.setdefault("fn_locals", {})[key] = cur_locals
+        base = (getattr(ctx, "inventory_locals", None) or {}).get(key)
+        if ent and not degrade and base is not None and cur_locals != base and len(cur_locals) == len(base):
+            mp = {b: c for b, c in zip(base, cur_locals) if b != c}
+            # a consistent renaming: no new name collides with an old name that is still in use
+            if mp and not (set(mp.values()) & (set(base) - set(mp.keys()))) and len(set(mp.values())) == len(mp):
+                ent = rename_overlay_locals(ent, mp)
+                ctx.log.append({"rule": "R22", "file": ctx.cur_file, "line": it.line, "what": "overlay locals renamed in %s: %s" % (key, mp)})
     header = list(it.header if has_body else it.toks)
     body = list(it.body) if has_body else None
     attrs = filter_attrs(it, ctx)
@@ -422,6 +463,10 @@ def generate(repo, contracts, twin=False, only=None, force_degrade=None):
     ov = parse_overlay(ov_files)
     ctx = Ctx(ov, twin, only)
     ctx.force_degrade = force_degrade or {}
+    try:
+        ctx.inventory_locals = json.load(open(os.path.join(contracts, "inventory.json"))).get("locals", {})
+    except Exception:
+        ctx.inventory_locals = {}
     ctx.inject_text = inject_text
     ctx.filter_attrs = filter_attrs
     meta = {"labels": {}, "files": {}, "rewrite_log": ctx.log}
